@@ -26,7 +26,7 @@ RULE = ('seeded two-file worlds: data file from the stub encoder (metadata-less 
         'properties, lengths, dtypes and data; the index alone (path and TDSh stream) gives the same metadata and '
         'refuses data reads. distinct = (segment shapes | program shape, index producer, backend, cut class); '
         'non-trivial = a channel with >= 1 value was compared with and without index')
-EXPECTED_PROBES = ['stub-index', 'writer-index', 'cut-data-complete-index', 'padding', 'segment-without-metadata',
+EXPECTED_PROBES = ['names-changed-after-open', 'stub-index', 'writer-index', 'cut-data-complete-index', 'padding', 'segment-without-metadata',
                    'index-only-path', 'index-only-stream', 'realpath']
 
 
@@ -57,6 +57,9 @@ def generate(rng, tier):
         if rng.random() < 0.25 and last.end - last.pos > 2:
             cut = rng.randint(last.pos + 1, last.end - 1)
     return {'source': src, 'backend': rng.choice(['simpath', 'simpath', 'realpath']), 'cut': cut, 'pathlib': rng.random() < 0.3,
+            # after TdmsFile.open returned, the directory entries are moved away ('rename') or other files are put under the
+            # same names ('replace'): an open file is what was opened, whatever its name designates later
+            'after_open': rng.choice([None] * 8 + ['rename', 'replace']),
             'raw_ts': rng.random() < 0.4, 'win_seed': rng.getrandbits(32), 'debug_log': rng.random() < 0.05}
 
 
@@ -105,6 +108,34 @@ def open_mode(mode, src, raw_ts):
     if mode == 'open':
         return lib.TdmsFile.open(src, raw_timestamps=raw_ts)
     return lib.TdmsFile.read_metadata(src, raw_timestamps=raw_ts)
+
+
+def move_entries(st, real, with_index, how, data):
+    names = ['w.tdms'] + (['w.tdms_index'] if with_index else [])
+    for n in names:
+        if real:
+            os.rename(os.path.join(st.realdir(), n), os.path.join(st.realdir(), 'moved-' + n))
+        else:
+            st.fs.rename(n, 'moved-' + n)
+    if how == 'replace':
+        # another, well-formed but different file under the old name: the same bytes with every raw-data byte inverted
+        # would need the layout; a file that merely starts like a TDMS file is enough to tell whose data is returned
+        other = bytes(data[:28]) + bytes(255 - b for b in data[28:])
+        if real:
+            with open(os.path.join(st.realdir(), 'w.tdms'), 'wb') as f:
+                f.write(other)
+        else:
+            st.fs.put('w.tdms', other)
+
+
+def restore_entries(st, real, with_index):
+    names = ['w.tdms'] + (['w.tdms_index'] if with_index else [])
+    for n in names:
+        if real:
+            os.replace(os.path.join(st.realdir(), 'moved-' + n), os.path.join(st.realdir(), n))
+        else:
+            st.fs.files.pop(n, None)
+            st.fs.rename('moved-' + n, n)
 
 
 def execute(case):
@@ -169,10 +200,17 @@ def execute(case):
                 except Exception as exc:
                     snaps[(with_index, mode)] = ('exc', type(exc).__name__, str(exc)[:100])
                     continue
+                moved = False
+                if mode == 'open' and case.get('after_open'):
+                    moved = True
+                    res.probe('names-changed-after-open')
+                    move_entries(st, real, with_index, case['after_open'], data)
                 try:
                     snaps[(with_index, mode)] = snapshot(tf, mode, win_rng)
                 finally:
                     tf.close()
+                    if moved:
+                        restore_entries(st, real, with_index)
                 res.steps += 1
             if not real:
                 leaked = [h for h in st.fs.leaked()]
